@@ -35,7 +35,7 @@ ASSUMPTIONS = [
 REQUIRED = {"fresh_models_checked": 200, "one_step_checks": 1000,
             "view_probes": 3000, "shift_probes": 100}
 MIN_NONTRIVIAL = {"quick": 60, "thorough": 500}
-PLAN = [("driven", 320, 4800)]
+PLAN = [("driven", 320, 4800), ("long", 24, 200)]
 EPS = np.finfo(float).eps
 
 
@@ -179,7 +179,106 @@ def check_views(h, jd, rng):
                     f"model '{name}': curv differs from v^T H v")
 
 
+def fmodel(q, xpt, scale):
+    """Float (c, g*scale, H*scale^2) of a Quadratic relative to the base."""
+    h = np.array(q._e_hess, dtype=float, copy=True)
+    h = h + (xpt * np.asarray(q._i_hess, dtype=float)) @ xpt.T
+    return (float(q._const), np.asarray(q._grad, float) * scale,
+            h * scale ** 2)
+
+
+def flfn(xpt, rhs, scale):
+    """Float least-Frobenius-norm interpolant of rhs on xpt, in the scaled
+    coefficients (c, g*scale, H*scale^2); solved on the balanced system."""
+    n, npt = xpt.shape
+    y = xpt / scale
+    w = np.zeros((npt + n + 1, npt + n + 1))
+    w[:npt, :npt] = 0.5 * (y.T @ y) ** 2
+    w[:npt, npt] = 1.0
+    w[npt, :npt] = 1.0
+    w[:npt, npt + 1:] = y.T
+    w[npt + 1:, :npt] = y
+    sol = np.linalg.solve(w, np.concatenate([rhs, np.zeros(n + 1)]))
+    lam = sol[:npt]
+    return float(sol[npt]), sol[npt + 1:], (y * lam) @ y.T
+
+
+def run_long(case):
+    """Long histories (130 consecutive replacements, no reset, no shift):
+    EVERY update is checked in floating point against 'model before + least
+    Frobenius norm interpolant of the residual on the new set' (whatever the
+    solver does after N updates must still be the symmetric Broyden step)."""
+    rng = e2e.rng_of(ID, case)
+    jd = Judge()
+    with ctx.suspended(), warnings.catch_warnings():
+        warnings.simplefilter("ignore")
+        n = int(rng.integers(2, 4))
+        npt = int(rng.integers(n + 2, 2 * n + 2))
+        h = drive.History(rng, n=n, npt=npt, mc_ub=int(rng.integers(0, 2)),
+                          mc_eq=int(rng.integers(0, 2)), box=False)
+        itp = h.itp
+        nn = h.npt + n + 1
+        done = 0
+        for t in range(130):
+            if jd.viols:
+                break
+            kind, x_new = h.new_point("near")
+            how, k = h.choose_index(x_new, "max_det" if rng.random() < 0.7
+                                    else "random")
+            fv, cub, ceq = h.pb(x_new)
+            dd = [float(fv - h.models.fun(x_new))]
+            dd += [float(c_ - m_) for c_, m_ in zip(cub, h.models.cub(x_new))]
+            dd += [float(c_ - m_) for c_, m_ in zip(ceq, h.models.ceq(x_new))]
+            cond0, scale0 = cond_scale(itp.xpt)
+            before = [fmodel(q, itp.xpt, scale0)
+                      for _, q, _ in all_models(h.models)]
+            try:
+                h.models.update_interpolation(k, x_new, fv, cub, ceq)
+            except np.linalg.LinAlgError:
+                break
+            done += 1
+            cond, scale = cond_scale(itp.xpt)
+            if not cond < 1e8 or not cond0 < 1e8:
+                jd.count("skipped_singular")
+                continue
+            for (name, q, _), m0, d in zip(all_models(h.models), before, dd):
+                rhs = np.zeros(h.npt)
+                rhs[k] = d
+                try:
+                    up = flfn(itp.xpt, rhs, scale)
+                except np.linalg.LinAlgError:
+                    jd.count("skipped_singular")
+                    continue
+                m1 = fmodel(q, itp.xpt, scale)
+                r0 = scale / scale0
+                m0s = (m0[0], m0[1] * r0, m0[2] * r0 ** 2)
+                err = max(abs(m1[0] - m0s[0] - up[0]),
+                          float(np.max(np.abs(m1[1] - m0s[1] - up[1]))),
+                          float(np.max(np.abs(m1[2] - m0s[2] - up[2]))))
+                zmag = max(abs(up[0]), float(np.max(np.abs(up[1]))),
+                           float(np.max(np.abs(up[2]))), abs(d))
+                old = max(abs(m0s[0]), float(np.max(np.abs(m0s[1]))),
+                          float(np.max(np.abs(m0s[2]))))
+                jd.count("long_step_checks")
+                jd.zone("update_not_lfn_step", err,
+                        nn * EPS * (cond * zmag + old),
+                        f"update #{t + 1} of a long history (index {k}): "
+                        f"model '{name}' after the update differs from "
+                        f"(model before + least-Frobenius-norm correction) "
+                        f"by {err:.3g} (scaled coefficients, cond "
+                        f"{cond:.3g})")
+    counts = dict(jd.counts)
+    counts["long_histories"] = 1
+    for v in jd.viols:
+        v["witness"].update({"n": n, "npt": h.npt, "updates": done})
+    return e2e.record(case, jd.viols, nt=f"long|n{n}|npt{h.npt}|{done // 50}",
+                      tags=["fam:long"], counts=counts, gray=jd.gray,
+                      maxes={k: v for k, v in jd.worst.items()})
+
+
 def run_case(case):
+    if case["fam"] == "long":
+        return run_long(case)
     rng = e2e.rng_of(ID, case)
     jd = Judge()
     with ctx.suspended(), warnings.catch_warnings():
